@@ -111,6 +111,13 @@ class World:
         self.generation = {}
         for j, p in enumerate(prios):
             self.register(f's{j}', p)
+        if flavour % 2 == 1:
+            # silent bystanders with bounded windows (warm-up jobs, a system that retires after a few timesteps): they do nothing and are
+            # not part of the log, but their windows close in the very timesteps in which the scripted systems change the system set
+            for k_ in range(6):
+                self.model.systems.add_system(self.Scripted.Idle(f'bystander{k_}', self.model, priority=-60 if k_ % 3 else 60, start=0, end=k_,
+                                                                 frequency=1 + (k_ == 5)))
+            ctx.count('worlds_with_bystanders_whose_windows_close_early')
         if flavour % 5 == 2:
             # the model under observation is a deep copy of the one that was set up (a duplicated / restored experiment)
             import copy as _copy
